@@ -185,7 +185,7 @@ class C09(DerivePlugin):
     rule = ("case = (1..4 strict converters drawn from shared pools so that they overlap on CURIE prefixes, URI prefixes, synonyms and letter case "
             "(go/GO/Go, strasse foldings, upper-cased URI prefixes), chain with both case-sensitivity modes) or (one converter, a prefix subset P of "
             "canonical prefixes, synonyms, unknown strings or the empty set, get_subconverter). Observed: ValueError / the result's records, "
-            "introspection views and battery answers. Non-trivial: chain merged >= 1 record or raised; subset keeps some and drops some records.")
+            "introspection views and battery answers; in a third of the cases the same input objects have served in earlier derivations whose results were thrown away. Non-trivial: chain merged >= 1 record or raised; subset keeps some and drops some records.")
 
     def generate(self, rng, n):
         for _ in range(n):
